@@ -19,6 +19,9 @@ CHECKS = {
  "C04": ("The X9 nesting automaton and the census of a file are Lean definitions; the Lean model of the reader state machine is tied to reader.go by EVERY single structural fault (delete, duplicate, move, insert of each kind, cut) of generated valid files, on which the census predicate is evaluated for the real Reader's result.",
          TB + "PARTIAL at proof level: the invariant `census(state) = attribute(consumed)` over the model's step function is stated, its proof is in progress; the fault enumeration is exhaustive per generated file. One recorded finding (duplicate file header, pinned by the repository's own test).",
          "Lean 4 model of the reader state machine + exhaustive single-fault correspondence", "§7.4"),
+ "C05": ("Reader: Lean proves that a Parse() statement list passing the decidable check guardOK (every slice dominated by an earlier length guard) never reaches the interpreter's panic outcome, for every input string (parseStmts_no_panic, using runeCount <= length); `decide` establishes guardOK for the Parse() regenerated from each of the 22 record types; the model reader is total by construction. The model is tied to reader.go on malformed inputs (every record resized to every length, lying length fields and prefixes, non-UTF-8 text, random bytes, the repository's crasher corpus, four option sets). JSON loader, build and writer on nil shapes: every single-position mutation of a full document, each returned file (also with an error) validated, marshalled, written x4 and built under recover, time and allocation bounds.",
+         TB + "PARTIAL: wall-clock hangs and real heap use are runtime properties that a Lean model cannot exhibit (the harness bounds them: 5 s, 64*(input+buffer)+4 MiB per read); the JSON-tail nil-shape analysis is enumeration, not proof.",
+         "Lean 4 proof (guard domination => no panic) over regenerated Parse tables + malformed-input correspondence + JSON mutation enumeration", "§7.5"),
  "C08": ("Lean theorems about the model writer: both framings wrap the same body and the prefix is len(record.String()) (framing_wraps_same_body); under EBCDIC the body of an ASCII-text record is its byte-for-byte CP037 transliteration of equal length (ebcdic_translit, via encode_ascii over the encoder model and the regenerated table), record 52 transliterates toString(false) and passes the image bytes of String() through (ebcdic_ivData); length-prefix framing is lossless (splitLP_joinLP). The model writer is tied to writer.go by rendering generated files (base64 images, lying image lengths, binary signatures included) in all four option sets with both, and the relations are checked on the real bytes.",
          TB + "gdamore/encoding's encoder is modelled (rune-level, chunk boundary behaviour of x/text transform.String beyond 128-byte lines is NOT modelled; lines with non-ASCII text longer than 128 bytes are outside the model). One recorded finding (binary signature under EBCDIC).",
          "Lean 4 proof on the writer model + four-rendering correspondence", "§7.8"),
